@@ -19,6 +19,9 @@ elif p.startswith('q'):
 elif p.startswith('p'):
     p = 'c' + p[1:]
     k_out = str(int(k) + 8)
+elif p.startswith('r'):
+    p = 'c' + p[1:]
+    k_out = str(int(k) + 10)
 dst = '/verif/seeded/%s-%s' % (p.upper(), k_out)
 os.makedirs(dst, exist_ok=True)
 shutil.copy(os.path.join(src, 'change%s.diff' % k), os.path.join(dst, 'patch.diff'))
